@@ -785,7 +785,7 @@ class Engine:
             return True, None
         return self.prove(claim, label)
 
-    def prove_identity(self, lhs, rhs, label=''):
+    def prove_identity(self, lhs, rhs, label='', rtol=None):
         """lhs == rhs for two symbolic values, decided on the canonical linear form: the difference is normalised
         to sum_i c_i * m_i over distinct monomials m_i (products of atoms: variables, uninterpreted applications,
         reciprocals, roots).  An empty difference proves the identity outright.  Otherwise every non-linear
@@ -793,7 +793,14 @@ class Engine:
         part of the path condition - posing the original non-linear formula with uninterpreted functions to z3
         does not terminate for `sat` instances (measured), and a `sat` here is only a candidate that the caller
         must confirm by concrete replay."""
-        d = SR.lift(lhs) - SR.lift(rhs)
+        lhs, rhs = SR.lift(lhs), SR.lift(rhs)
+        d = lhs - rhs
+        if d.p and rtol is not None:
+            # coefficients that agree to rtol (two spellings of one literal constant, e.g. x/(4*pi) against
+            # x*(4*pi)**-1, differ in the 17th digit as exact rationals of doubles) count as equal
+            rt = _frac(rtol)
+            d = SR({m: c for m, c in d.p.items()
+                    if abs(c) > rt * max(abs(lhs.p.get(m, 0)), abs(rhs.p.get(m, 0)))})
         if not d.p:
             self.stats['verdict_trivial'] = self.stats.get('verdict_trivial', 0) + 1
             return True, None
